@@ -161,7 +161,7 @@ class PoolWorld(WorldBase):
         nr = ch.randint(2, 6)
         op = {'op': 'thread_pool', 'ctype': 'series', 'iface': 'iter_element',
               'spec': {'name': 'se', 'index': ROWL[:nr], 'hier': False, 'values': gen_cells(ch, nr, 1, ch.choice(['int', 'str']))},
-              'func': ch.choice(['build_and_probe', 'probe_shared', 'probe_shared', 'probe_bus', 'probe_bus_direct', 'sample_in_task', 'alloc_probe']), 'mp': ch.choice([None, None, 1, 2]),
+              'func': ch.choice(['build_and_probe', 'probe_shared', 'probe_shared', 'probe_bus', 'probe_bus_direct', 'probe_bus_whole', 'sample_in_task', 'alloc_probe']), 'mp': ch.choice([None, None, 1, 2]),
               'k': ch.randint(2, 4), 'p': ch.choice([0.02, 0.05, 0.1, 0.3]), 'hw': ch.choice([1, 1, 8, 25]), 'stall': ch.choice([0, 3, 3, 8, 20]),
               'grow_ih': ch.randint(0, 3), 'grow_ix': ch.randint(0, 3), 'n': ch.randint(1, 4)}
         if op['func'] == 'alloc_probe':
@@ -199,6 +199,8 @@ class PoolWorld(WorldBase):
             spec = gen_frame(ch, 'fr', nr=ch.randint(0, 6))
             iface = ch.choice(FRAME_IFACES)
             op.update({'spec': spec, 'iface': iface, 'axis': ch.randint(0, 1)})
+            if iface.startswith('iter_tuple'):
+                op['named_tuple'] = ch.chance(0.5)
             if 'group' in iface and 'labels' not in iface:
                 # a grouping column with repeats
                 g = [ch.randint(0, 2) for _ in spec['index']]
@@ -249,7 +251,7 @@ class PoolWorld(WorldBase):
                 chain = chain[:i + 1]  # nothing is chained after a dimension-reducing step
                 break
         op = {'op': 'batch_pool', 'frames': frames, 'chain': chain, 'export': ch.choice(['items', 'to_frame', 'to_bus', 'items_partial', 'to_frame_axis1']),
-              'source': ch.choice(['from_frames', 'items_gen', 'bus_items', 'items_eq_labels']), 'dirty_go': ch.chance(0.25),
+              'source': ch.choice(['from_frames', 'items_gen', 'bus_items', 'items_eq_labels', 'items_own_labels']), 'dirty_go': ch.chance(0.25),
               'none_at': ch.randint(0, n - 1), 'eq_off': ch.randint(0, 7), 'except_any': ch.chance(0.3)}
         op.update(self._pool_params(ch, n))
         if op.get('fail_at') is not None:
@@ -358,6 +360,8 @@ class PoolWorld(WorldBase):
             if iface.startswith(('iter_array', 'iter_series')):
                 return attr(axis=op.get('axis', 0))
             if iface.startswith('iter_tuple'):
+                if op.get('named_tuple'):
+                    return attr(axis=op.get('axis', 0))  # default constructor: a NamedTuple class made on the fly from the labels
                 return attr(axis=op.get('axis', 0), constructor=tuple)
             if iface.startswith('iter_group_labels'):
                 return attr(0, axis=op.get('axis', 0) * 0)
@@ -451,7 +455,7 @@ class PoolWorld(WorldBase):
                 return functools.partial(pf.alloc_probe, sizes=tuple(op.get('sizes', (3, 9, 5))))
             if op['func'] == 'sample_in_task':
                 return functools.partial(pf.sample_in_task, n=op.get('n', 2))
-            if op['func'] in ('probe_bus', 'probe_bus_direct'):
+            if op['func'] in ('probe_bus', 'probe_bus_direct', 'probe_bus_whole'):
                 # one lazily loaded, possibly LRU-bounded Bus shared by all tasks
                 if self.dir is None:
                     self.dir = tempfile.mkdtemp(prefix='sfpool_', dir='/dev/shm' if os.path.isdir('/dev/shm') else None)
@@ -645,6 +649,9 @@ class PoolWorld(WorldBase):
         if op.get('source') == 'items_eq_labels':
             off = op.get('eq_off', 0)
             return [self.EQ_LABELS[(off + i) % len(self.EQ_LABELS)] for i in range(len(names))]
+        if op.get('source') == 'items_own_labels':
+            # the Batch's own labels, different from the names of the Frames it holds (and in another order)
+            return ['L%d' % (len(names) - i) for i in range(len(names))]
         return names
 
     def _batch_frame(self, spec, op):
@@ -668,7 +675,7 @@ class PoolWorld(WorldBase):
             b = sf.Batch.from_frames(frames, **kw)
         elif src == 'items_gen':
             b = sf.Batch(((f.name, f) for f in frames), **kw)
-        elif src == 'items_eq_labels':
+        elif src in ('items_eq_labels', 'items_own_labels'):
             b = sf.Batch(zip(self._batch_labels(op), frames), **kw)
         else:
             b = sf.Batch(sf.Bus.from_frames(frames).items(), **kw)
